@@ -373,7 +373,9 @@ def run_round(res, case):
 
 # ---------------------------------------------------------------- trunc
 
-ETCS = [(None, '...'), ('etc=""', ''), ('etc=">>"', '>>')]
+ETCS = [(None, '...'), ('etc=""', ''), ('etc=">>"', '>>'),
+        # texts with blanks at their edges are texts
+        ('etc=" .."', ' ..'), ('etc="~ "', '~ '), ('etc=" "', ' ')]
 
 
 def trunc_ref(s, size, etc):
@@ -499,46 +501,48 @@ def run_null(res, case):
     n = nt = 0
     extras = [[], ['upper'], ['size=1'], ['fmt="%s!"'], ['html_quote'],
               ['upper', 'size=1', 'spacify']]
-    for extra in extras:
-        # null
-        for opts in (['null="N_n"'] + extra, extra + ['null="N_n"']):
-            got = rend(tag(opts), x=v)
-            n += 1
-            if is_null(v):
-                nt += 1
-                if got != ('ok', 'N_n'):
-                    res.violate('null', 'null:not-applied:%s' % kind,
-                                {'value': repr(v), 'options': opts,
-                                 'got': repr(got)})
-            else:
-                plain = rend(tag(extra), x=v)
-                if as_text(got[1]) != as_text(plain[1]) or got[0] != plain[0]:
-                    res.violate('null', 'null:applied-to-value:%s' % kind,
-                                {'value': repr(v), 'options': opts,
-                                 'got': repr(got), 'without': repr(plain)})
-        # missing: the name y is undefined, x is defined
-        for opts in (['missing="M_m"'] + extra, extra + ['missing="M_m"']):
-            got = rend(tag(opts, name='y'), x=v)
-            n += 1
-            nt += 1
-            if got != ('ok', 'M_m'):
-                res.violate('missing', 'missing:not-applied',
-                            {'options': opts, 'got': repr(got)})
-            got = rend(tag(opts), x=v)
-            plain = rend(tag(extra), x=v)
-            n += 1
-            if got[0] != plain[0] or as_text(got[1]) != as_text(plain[1]):
-                res.violate('missing', 'missing:applied-to-defined:%s' % kind,
-                            {'value': repr(v), 'options': opts,
-                             'got': repr(got), 'without': repr(plain)})
-        got = rend(tag(extra, name='y'), x=v)
-        n += 1
-        if got != ('exc', 'KeyError'):
-            res.violate('missing', 'missing:undefined-without-missing',
-                        {'options': extra, 'got': repr(got)})
+    for NT, MT in (('N_n', 'M_m'), (' n/a ', ' (none) '), ('\tq', 'm\n')):
+      for extra in extras:
+          # null (NT / MT: the replacement texts, also with white space at
+          # their edges -- they are inserted as written)
+          for opts in (['null="%s"' % NT] + extra, extra + ['null="%s"' % NT]):
+              got = rend(tag(opts), x=v)
+              n += 1
+              if is_null(v):
+                  nt += 1
+                  if got != ('ok', NT):
+                      res.violate('null', 'null:not-applied:%s' % kind,
+                                  {'value': repr(v), 'options': opts,
+                                   'got': repr(got)})
+              else:
+                  plain = rend(tag(extra), x=v)
+                  if as_text(got[1]) != as_text(plain[1]) or got[0] != plain[0]:
+                      res.violate('null', 'null:applied-to-value:%s' % kind,
+                                  {'value': repr(v), 'options': opts,
+                                   'got': repr(got), 'without': repr(plain)})
+          # missing: the name y is undefined, x is defined
+          for opts in (['missing="%s"' % MT] + extra, extra + ['missing="%s"' % MT]):
+              got = rend(tag(opts, name='y'), x=v)
+              n += 1
+              nt += 1
+              if got != ('ok', MT):
+                  res.violate('missing', 'missing:not-applied',
+                              {'options': opts, 'got': repr(got)})
+              got = rend(tag(opts), x=v)
+              plain = rend(tag(extra), x=v)
+              n += 1
+              if got[0] != plain[0] or as_text(got[1]) != as_text(plain[1]):
+                  res.violate('missing', 'missing:applied-to-defined:%s' % kind,
+                              {'value': repr(v), 'options': opts,
+                               'got': repr(got), 'without': repr(plain)})
+          got = rend(tag(extra, name='y'), x=v)
+          n += 1
+          if got != ('exc', 'KeyError'):
+              res.violate('missing', 'missing:undefined-without-missing',
+                          {'options': extra, 'got': repr(got)})
     res.evals = n
     res.nt_count = nt
-    res.sample = {'value': repr(v), 'tag': tag(['null="N_n"', 'upper'])}
+    res.sample = {'value': repr(v), 'tag': tag(['null="%s"' % NT, 'upper'])}
 
 
 def run_cfmt(res, case):
